@@ -58,7 +58,7 @@ func checkC01(c *Ctx) *report.Result {
 	c.checkALU(r, m)
 	r.Rule("F-daa", "DAA: for every N, H, C, low nibble of A and high-nibble class (0-8, 9, A-F) the adjusted A is A + adjustment (mod 256) as a linear form in the high nibble, with the documented adjustment (06 / 60 / 66 / -06 / -60 / -66 / 0), carry, H = 0, N unchanged, and Z where it is determined")
 	c.checkDAA(r, m)
-	adopt(r, c.sibling("C02"), map[string]string{"L-cond": "F-cond"}, "an instruction that tests the wrong flag has the wrong effect on PC/SP/memory for some flag state")
+	adopt(r, c.sibling("C02"), map[string]string{"L-cond": "F-cond", "S5": "F-cond"}, "an instruction that tests the wrong flag has the wrong effect on PC/SP/memory for some flag state")
 	adopt(r, c.sibling("C03"), map[string]string{"M-sched": "F-mem", "M-order": "F-mem", "M-rmw": "F-mem"}, "an access to the wrong address or with swapped bytes changes the wrong memory cell")
 	r.Rule("F-carry", "half-carry and carry/borrow at their thresholds (constants and intervals on both sides) for ADD/ADC/SUB/SBC/CP A,r, INC/DEC r, ADD HL,rr, ADD SP,e and LD HL,SP+e")
 	c.checkCarry(r, m)
@@ -400,7 +400,81 @@ func (c *Ctx) checkExact(r *report.Result, m *Machine, doc oracle.Op, row *Row, 
 	}
 	reg := r8names[z]
 	if z == 6 {
-		return // memory operand: the written byte is checked through M-rmw / value dependences
+		// memory operand: the byte written back to (HL) as a function of the byte read, bit for bit
+		if x == 1 {
+			return // BIT n,(HL) writes nothing
+		}
+		opSym := it.NewSym("(HL)", ai.CellKey{})
+		post, calls, ok := c.runRow(m, row, nil, ai.NewSymInt(8, false, opSym))
+		var wr *ai.Int
+		for _, mc := range calls {
+			if mc.Write {
+				wr = mc.Val
+			}
+		}
+		src := make([]ai.Bit, 8)
+		for i := range src {
+			src[i] = srcBit(opSym, i)
+		}
+		cin := srcBit(fs, 4)
+		want := make([]ai.Bit, 8)
+		zero, one := ai.Bit{K: ai.BZero}, ai.Bit{K: ai.BOne}
+		for i := 0; i < 8; i++ {
+			switch {
+			case x == 2:
+				want[i] = src[i]
+				if i == y {
+					want[i] = zero
+				}
+			case x == 3:
+				want[i] = src[i]
+				if i == y {
+					want[i] = one
+				}
+			case y == 0: // RLC
+				want[i] = src[(i+7)%8]
+			case y == 1: // RRC
+				want[i] = src[(i+1)%8]
+			case y == 2: // RL
+				if i == 0 {
+					want[i] = cin
+				} else {
+					want[i] = src[i-1]
+				}
+			case y == 3: // RR
+				if i == 7 {
+					want[i] = cin
+				} else {
+					want[i] = src[i+1]
+				}
+			case y == 4: // SLA
+				if i == 0 {
+					want[i] = zero
+				} else {
+					want[i] = src[i-1]
+				}
+			case y == 5: // SRA
+				if i == 7 {
+					want[i] = src[7]
+				} else {
+					want[i] = src[i+1]
+				}
+			case y == 6: // SWAP
+				want[i] = src[(i+4)%8]
+			case y == 7: // SRL
+				if i == 7 {
+					want[i] = zero
+				} else {
+					want[i] = src[i+1]
+				}
+			}
+		}
+		_ = post
+		if !ok {
+			wr = nil
+		}
+		expect("byte written to (HL)", wr, want)
+		return
 	}
 	switch x {
 	case 0:
